@@ -13,6 +13,8 @@ def run(tier, seed, work):
     quick = tier == "quick"
     mc = [("MC_Bridge.tla", "MC_Bridge_withdrawals.cfg" if quick else "MC_Bridge_withdrawals_thorough.cfg")]
     per, depth, nj = (5, 50, 14) if quick else (25, 60, 14)
-    groups = [("Trace_Bridge.tla", "Trace_Bridge_C05.cfg", bc.jobs("c05", seed + 1, per, depth, nj))]
+    # "told paid once or refund once for an id, never twice" spans restarts from an exported state
+    rj = [("c05reimp_%d" % j, ["reimport", "-n", 3 if quick else 12, "-depth", 30, "-seed", seed * 1000 + 360 + j, "-mode", "bridge"]) for j in range(4 if quick else 8)]
+    groups = [("Trace_Bridge.tla", "Trace_Bridge_C05.cfg", bc.jobs("c05", seed + 1, per, depth, nj)), ("Trace_Bridge.tla", "Trace_Bridge_C05.cfg", rj)]
     return verif.run_stateful_check("C05", tier, seed, work, mc_list=mc, groups=groups, key_fn=bc.key,
                                     level="model_checking", assumptions=bc.ASSUME, rule=RULE)
